@@ -121,8 +121,6 @@ func serverGoroutines2() (int, int) {
 }
 func serverGoroutines() int { n, _ := serverGoroutines2(); return n }
 
-var debug17 func(d *drv17)
-
 // ---------- schedule ----------
 type act17 struct {
 	kind string // open | openbad | use | close | tick | stop
@@ -137,6 +135,7 @@ type sched17 struct {
 	churn   int  // workers of the concurrent part (0 = none)
 	rounds  int  // connections per worker
 	stopMid bool // Stop while a second burst is running
+	mass    int  // connections opened concurrently and kept open right before Stop (closeAllConnections races their goroutines)
 	closing []string
 	files   int
 }
@@ -367,10 +366,12 @@ func (d *drv17) tick(adv int64) {
 		select {
 		case <-d.conns[id].closed:
 		case <-time.After(3 * time.Second):
-			if debug17 != nil {
-				debug17(d)
-			}
-			d.fail("idle connection not closed within 3 s")
+			// 150 ticker periods have passed and a connection idle for longer than IdleTimeout is still open:
+			// that is an observation about the reaper, not a failure to enact the schedule
+			d.tags["idle_not_reaped"]++
+			d.diverged = true
+			d.emit("Tick")
+			d.emit("RTickDone", d.observe(d.expGor())...)
 			return
 		}
 	}
@@ -605,6 +606,25 @@ func runC17(s sched17, kind string, idx int) Case {
 			}
 			obs(1, uint64(pk), uint64(cnt), uint64(act), uint64(open))
 			tags["churn_peak"] = pk
+			if s.mass > 0 {
+				var wg3 sync.WaitGroup
+				for i := 0; i < s.mass; i++ {
+					wg3.Add(1)
+					go func() {
+						defer wg3.Done()
+						cc, err := dialFrom("", d.port)
+						if err != nil {
+							return
+						}
+						cc.null(3 * time.Second)
+						mu.Lock()
+						kept = append(kept, cc)
+						mu.Unlock()
+					}()
+				}
+				wg3.Wait()
+				tags["mass_open"] = s.mass
+			}
 			if s.stopMid {
 				var wg2 sync.WaitGroup
 				for w := 0; w < s.churn; w++ {
@@ -757,6 +777,13 @@ func genC17(r *Rand, idx int, tier string) Case {
 	default:
 		kind = "exact+churn+stop-mid-burst"
 		s.churn, s.rounds, s.stopMid = 3+r.Intn(6), 2+r.Intn(5), true
+	}
+	if s.churn > 0 && r.Chance(50) {
+		kind += "+mass"
+		s.mass = 10 + r.Intn(30)
+		if r.Chance(60) {
+			s.max = 0 // the default limit of 100: all of them are registered when Stop closes them
+		}
 	}
 	s.closing = [][]string{{"close", "close"}, {"close", "unexport", "stop"}, {"unexport", "close", "close"}, {"stop", "close", "unexport", "close"}}[r.Intn(4)]
 	return runC17(s, kind, idx)
